@@ -363,6 +363,12 @@ def runOp (st : St) (k : Nat) (name : String) (args : List String) (m? : Option 
       let (m, ok) := (prep m).replayTransitions ts
       pure (some m, some (if ok then "1" else "0"))
     | none => throw "bad replay"
+  | "replayenter", [ts], some m =>
+    match parseTransitions ts with
+    | some ts =>
+      let (m, ok) := (prep m).replayEnter ts
+      pure (some m, some (if ok then "1" else "0"))
+    | none => throw "bad replayenter"
   | _, _, _ => throw s!"unknown operation {name}"
 
 /-- first index where two lists differ -/
